@@ -1173,6 +1173,15 @@ func (x *Exec) convertTo(st *State, v Value, from, to types.Type) Value {
 			x.abstr["value of type "+from.String()+" boxed into an interface"] = true
 			return Sc{x.alloc(st, "box")}
 		}
+		if pt, isPtr := from.Underlying().(*types.Pointer); isPtr {
+			if _, named := pt.Elem().(*types.Named); named {
+				// a non-nil *T stored in an interface has dynamic type *T
+				sc := v.(Sc)
+				if sc.T.S.Kind == SInt {
+					st.add(Implies(Neq(sc.T, IntC(0)), Eq(App(dyntypeFn, sc.T), typeID(from))))
+				}
+			}
+		}
 		return v
 	}
 	fi, okf := intInfoOf(from)
